@@ -192,7 +192,7 @@ theorem recStep_est (feature : Bool) (r : Rev) (f : Faults) (c : Cache) (st : Re
 
 theorem envStep_verif (a d : Bool) (st : RevSt) : (envStep a d st).verif = st.verif := by
   unfold envStep
-  cases st.present <;> cases d <;> cases hf : st.finalizer <;> simp [hf]
+  cases st.present <;> cases d <;> cases st.finalizer <;> simp
 
 theorem gates_verif (r : Rev) (f : Faults) (st : RevSt) (p : Pkg) : (gates r f st p).1.verif = st.verif := by
   unfold gates
